@@ -241,6 +241,11 @@ def install_solver_seams():
                 s.fire("crash")
                 s.trace("crash", site, k)
                 raise WorkerCrash()
+            elif kind == "interrupt":
+                # the solver call is interrupted (Ctrl-C in a notebook, a cancelled task)
+                s.fire("interrupt")
+                s.trace("interrupt", site, k)
+                raise z3.Z3Exception("canceled")
         return s, k, f, dur
 
     def solver_check(self, *a):
